@@ -11,6 +11,7 @@ def errName : AdtErr → String
   | .cfgModified => "CFGModifiedError"
   | .assertion => "AssertionError"
   | .bodyRaised => "BodyRaised"
+  | .fuel => "MODEL-FUEL"
 
 def optNatJ : Option Nat → Json
   | none => Json.null
@@ -80,9 +81,13 @@ def runRc (c : RC) (sp : RSpec) : List RcOp → List Json → List Json
         | .ok (r, c') => (optNatJ r, some c')
         | .error er => (Json.str (errName er), none)
       | .getReferences b k =>
-        let (c', ys) := c.getReferences b k
-        (natList ys, some c')
-      | .apply => (Json.str "ok", some c.apply)
+        match c.getReferences b k with
+        | some (c', ys) => (natList ys, some c')
+        | none => (Json.str "MODEL-FUEL", none)
+      | .apply =>
+        match c.apply with
+        | some c' => (Json.str "ok", some c')
+        | none => (Json.str "MODEL-FUEL", none)
     let sobs : Json := match op, specRes with
       | _, .error er => Json.str (errName er)
       | .getReferent s, .ok sp' => optNatJ (sp'.ref s)
